@@ -202,6 +202,7 @@ func ruleLITINT(c *Ctx) []Obligation {
 	}
 	// printer: every return expression
 	n := 0
+	defs := collectDefs(info, ifd.Body)
 	ast.Inspect(ifd.Body, func(nd ast.Node) bool {
 		r, ok := nd.(*ast.ReturnStmt)
 		if !ok || len(r.Results) != 1 {
@@ -216,21 +217,34 @@ func ruleLITINT(c *Ctx) []Obligation {
 			} else {
 				o.Verdict, o.Detail = VIOL, fmt.Sprintf("the printer emits the keyword %q, which the reader does not recognise (it would be parsed as a number and fail)", s)
 			}
-		} else if be, ok := e.(*ast.BinaryExpr); ok && be.Op == token.ADD {
-			pfx, okp := strOf(be.X)
-			var base int64 = -1
-			ast.Inspect(be.Y, func(m ast.Node) bool {
-				if call, ok := m.(*ast.CallExpr); ok && len(call.Args) == 1 {
-					if se, ok := unparen(call.Fun).(*ast.SelectorExpr); ok && se.Sel.Name == "Text" {
+		} else if pfx, okp, verbBase, parts := spellingParts(info, defs, e); parts != nil {
+			var base int64 = verbBase
+			narrowed := ""
+			for _, part := range parts {
+				ast.Inspect(part, func(m ast.Node) bool {
+					call, ok := m.(*ast.CallExpr)
+					if !ok {
+						return true
+					}
+					se, ok := unparen(call.Fun).(*ast.SelectorExpr)
+					if !ok {
+						return true
+					}
+					if se.Sel.Name == "Text" && len(call.Args) == 1 {
 						if tv := info.Types[call.Args[0]]; tv.Value != nil {
 							base, _ = constant.Int64Val(constant.ToInt(tv.Value))
 						}
 					}
-				}
-				return true
-			})
+					if (se.Sel.Name == "Int64" || se.Sel.Name == "Uint64") && len(call.Args) == 0 && isNamed(info.TypeOf(se.X), "math/big", "Int") {
+						narrowed = exprString(call)
+					}
+					return true
+				})
+			}
 			rb, has := prefixBase[pfx]
 			switch {
+			case narrowed != "":
+				o.Verdict, o.Detail = VIOL, fmt.Sprintf("the spelling is produced from %s: the arbitrary-precision value is narrowed to 64 bits before it is written, so a constant wider than 64 bits loses its upper bits", narrowed)
 			case !okp || base < 0:
 				o.Verdict, o.Detail = UNDECIDED, "unrecognised spelling expression"
 			case !has:
@@ -394,5 +408,258 @@ func ruleLITFP(c *Ctx) []Obligation {
 		o.Detail = "printer fall-through kinds = reader decimal kinds = " + strings.Join(a, ", ")
 	}
 	obs = append(obs, o)
+	obs = append(obs, c.litFPDoubleForm(rfd, info)...)
+	obs = append(obs, c.litFPPrecision(rfd, info)...)
+	obs = append(obs, c.litFPExactness(ksw, fallKinds, info)...)
 	return obs
+}
+
+// ieeeSignificand: significand width in bits (including the hidden bit) of the
+// IEEE 754 binary interchange formats LLVM's half, float and double denote.
+var ieeeSignificand = map[string]int64{"types.FloatKindHalf": 11, "types.FloatKindFloat": 24, "types.FloatKindDouble": 53}
+
+// litFPDoubleForm: LangRef — "constants of types half, float, and double are
+// represented using the 16-digit form (which matches the IEEE754
+// representation for double)". In the reader's default hexadecimal branch every
+// kind case therefore decodes the parsed 64 bits with math.Float64frombits.
+func (c *Ctx) litFPDoubleForm(rfd *ast.FuncDecl, info *types.Info) []Obligation {
+	var obs []Obligation
+	var def *ast.CaseClause
+	ast.Inspect(rfd.Body, func(nd ast.Node) bool {
+		sw, ok := nd.(*ast.SwitchStmt)
+		if !ok || sw.Tag != nil {
+			return true
+		}
+		hasPrefix := false
+		var d *ast.CaseClause
+		for _, cc := range sw.Body.List {
+			cl := cc.(*ast.CaseClause)
+			if cl.List == nil {
+				d = cl
+			}
+			for _, e := range cl.List {
+				if call, ok := e.(*ast.CallExpr); ok && strings.HasSuffix(exprString(call.Fun), "HasPrefix") {
+					hasPrefix = true
+				}
+			}
+		}
+		if hasPrefix && d != nil && def == nil {
+			def = d
+		}
+		return true
+	})
+	if def == nil {
+		return []Obligation{{Key: "16-digit double form branch", Verdict: UNDECIDED, Pos: c.pos(rfd.Pos()), Detail: "no default branch in the reader's prefix switch"}}
+	}
+	// the variable holding the parsed bits
+	var bits types.Object
+	var ksw *ast.SwitchStmt
+	for _, st := range def.Body {
+		switch st := st.(type) {
+		case *ast.AssignStmt:
+			if len(st.Rhs) == 1 && len(st.Lhs) == 2 {
+				if call, ok := st.Rhs[0].(*ast.CallExpr); ok && isPkgFunc(calleeOf(info, call), "strconv", "ParseUint") {
+					if id, ok := st.Lhs[0].(*ast.Ident); ok {
+						bits = info.ObjectOf(id)
+					}
+				}
+			}
+		case *ast.SwitchStmt:
+			if st.Tag != nil && strings.HasSuffix(exprString(st.Tag), ".Kind") {
+				ksw = st
+			}
+		}
+	}
+	if bits == nil || ksw == nil {
+		return []Obligation{{Key: "16-digit double form branch", Verdict: UNDECIDED, Pos: c.pos(def.Pos()), Detail: "no `bits, err := strconv.ParseUint(...)` followed by a switch over the kind in the default hexadecimal branch"}}
+	}
+	for _, cc := range ksw.Body.List {
+		cl := cc.(*ast.CaseClause)
+		for _, e := range cl.List {
+			o := Obligation{Key: "float kind " + exprString(e) + " 16-digit form decodes the double bit pattern", Pos: c.pos(cl.Pos()), Verdict: VIOL,
+				Detail: "the 16-digit 0x form is the IEEE 754 double bit pattern of the value (LangRef), but this case does not decode the parsed bits with math.Float64frombits: the exponent/significand layout of a double is reinterpreted by other means"}
+			ast.Inspect(cl, func(m ast.Node) bool {
+				call, ok := m.(*ast.CallExpr)
+				if !ok || len(call.Args) != 1 || !isPkgFunc(calleeOf(info, call), "math", "Float64frombits") {
+					return true
+				}
+				if id, ok := unparen(call.Args[0]).(*ast.Ident); ok && info.ObjectOf(id) == bits {
+					o.Verdict, o.Detail = OK, "math.Float64frombits(bits) on the parsed 64 bits"
+				}
+				return true
+			})
+			obs = append(obs, o)
+		}
+	}
+	return obs
+}
+
+// litFPPrecision: every `const precision = N` of the reader sits in a case of
+// one kind; all sites of a kind agree and equal the IEEE significand width.
+func (c *Ctx) litFPPrecision(rfd *ast.FuncDecl, info *types.Info) []Obligation {
+	var obs []Obligation
+	type site struct {
+		pos token.Pos
+		val int64
+	}
+	sites := map[string][]site{}
+	ast.Inspect(rfd.Body, func(nd ast.Node) bool {
+		cl, ok := nd.(*ast.CaseClause)
+		if !ok || len(cl.List) == 0 {
+			return true
+		}
+		for _, st := range cl.Body {
+			ds, ok := st.(*ast.DeclStmt)
+			if !ok {
+				continue
+			}
+			gd, ok := ds.Decl.(*ast.GenDecl)
+			if !ok {
+				continue
+			}
+			for _, sp := range gd.Specs {
+				vs, ok := sp.(*ast.ValueSpec)
+				if !ok || len(vs.Names) != 1 || vs.Names[0].Name != "precision" || len(vs.Values) != 1 {
+					continue
+				}
+				if tv := info.Types[vs.Values[0]]; tv.Value != nil {
+					if v, ok := constant.Int64Val(constant.ToInt(tv.Value)); ok {
+						for _, e := range cl.List {
+							sites[exprString(e)] = append(sites[exprString(e)], site{vs.Pos(), v})
+						}
+					}
+				}
+			}
+		}
+		return true
+	})
+	for _, kind := range sortedKeys(sites) {
+		ss := sites[kind]
+		o := Obligation{Key: "float kind " + kind + " reader precision", Pos: c.pos(ss[0].pos), Verdict: OK}
+		var vals []string
+		agree := true
+		for _, x := range ss {
+			vals = append(vals, fmt.Sprint(x.val))
+			if x.val != ss[0].val {
+				agree = false
+			}
+		}
+		want, known := ieeeSignificand[kind]
+		switch {
+		case !agree:
+			o.Verdict, o.Detail = VIOL, fmt.Sprintf("the reader rounds this kind to different significand widths at different sites (%s bits): the hexadecimal and the decimal spelling of one value yield different constants", strings.Join(vals, ", "))
+		case known && ss[0].val != want:
+			o.Verdict, o.Detail = VIOL, fmt.Sprintf("the reader keeps %d significand bits for this kind; the format has %d: values are rounded to a precision the type does not have", ss[0].val, want)
+		default:
+			o.Detail = fmt.Sprintf("%d sites, %s bits", len(ss), vals[0])
+		}
+		obs = append(obs, o)
+	}
+	return obs
+}
+
+// litFPExactness: a kind the printer may spell in decimal is guarded by the
+// exactness test of that kind's width (float.IsExact16/32/64).
+func (c *Ctx) litFPExactness(ksw *ast.SwitchStmt, fallKinds map[string]bool, info *types.Info) []Obligation {
+	var obs []Obligation
+	want := map[string]string{"types.FloatKindHalf": "IsExact16", "types.FloatKindFloat": "IsExact32", "types.FloatKindDouble": "IsExact64"}
+	for _, cc := range ksw.Body.List {
+		cl := cc.(*ast.CaseClause)
+		for _, e := range cl.List {
+			kind := exprString(e)
+			if !fallKinds[kind] {
+				continue
+			}
+			o := Obligation{Key: "float kind " + kind + " decimal spelling guarded by exactness test", Pos: c.pos(cl.Pos()), Verdict: OK}
+			var used []string
+			ast.Inspect(cl, func(m ast.Node) bool {
+				id, ok := m.(*ast.Ident)
+				if !ok {
+					return true
+				}
+				if f, ok := info.Uses[id].(*types.Func); ok && f.Pkg() != nil && f.Pkg().Path() == pkgFLT && strings.HasPrefix(f.Name(), "IsExact") {
+					used = append(used, f.Name())
+				}
+				return true
+			})
+			w, known := want[kind]
+			switch {
+			case !known:
+				o.Verdict, o.Detail = UNDECIDED, "no exactness test known for this kind, yet the printer may spell it in decimal"
+			case len(used) == 0:
+				o.Verdict, o.Detail = VIOL, "the printer can fall through to the decimal spelling of this kind without any float.IsExact test: a value whose shortest decimal is not exact is printed in a form LLVM rejects or reads as another value"
+			default:
+				for _, u := range used {
+					if u != w {
+						o.Verdict, o.Detail = VIOL, fmt.Sprintf("the decimal spelling of this kind is guarded by float.%s, the test of another width (want float.%s)", u, w)
+					}
+				}
+				if o.Verdict == OK {
+					o.Detail = "float." + w
+				}
+			}
+			obs = append(obs, o)
+		}
+	}
+	return obs
+}
+
+// spellingParts splits a spelling expression of the form  "prefix" + <digits>  or
+// fmt.Sprintf("prefix%X", <value>)  into its constant prefix and the
+// expressions the digits are computed from, following local variables to their
+// definitions (so that  hex := c.X.Text(16); return "u0x" + strings.ToUpper(hex)
+// is read like the one-line form).
+func spellingParts(info *types.Info, defs map[types.Object][]ast.Expr, e ast.Expr) (pfx string, okp bool, verbBase int64, parts []ast.Node) {
+	verbBase = -1
+	strOf := func(e ast.Expr) (string, bool) {
+		if tv := info.Types[e]; tv.Value != nil && tv.Value.Kind() == constant.String {
+			return constant.StringVal(tv.Value), true
+		}
+		return "", false
+	}
+	var expand func(x ast.Expr, depth int)
+	seen := map[types.Object]bool{}
+	expand = func(x ast.Expr, depth int) {
+		parts = append(parts, x)
+		if depth > 4 {
+			return
+		}
+		ast.Inspect(x, func(m ast.Node) bool {
+			if id, ok := m.(*ast.Ident); ok {
+				if v, ok := info.Uses[id].(*types.Var); ok && !v.IsField() && !seen[v] {
+					seen[v] = true
+					for _, d := range defs[v] {
+						expand(d, depth+1)
+					}
+				}
+			}
+			return true
+		})
+	}
+	switch x := e.(type) {
+	case *ast.BinaryExpr:
+		if x.Op != token.ADD {
+			return "", false, -1, nil
+		}
+		pfx, okp = strOf(x.X)
+		expand(x.Y, 0)
+		return
+	case *ast.CallExpr:
+		if f := calleeOf(info, x); f != nil && isPkgFunc(f, "fmt", "Sprintf") && len(x.Args) == 2 {
+			if format, ok := strOf(x.Args[0]); ok {
+				if i := strings.IndexByte(format, '%'); i >= 0 && i == len(format)-2 {
+					pfx, okp = format[:i], true
+					switch format[i+1] {
+					case 'X', 'x':
+						verbBase = 16
+					case 'd':
+						verbBase = 10
+					}
+				}
+			}
+			expand(x.Args[1], 0)
+			return
+		}
+	}
+	return "", false, -1, nil
 }
